@@ -19,20 +19,23 @@ PROVED = ['[P] resultant_zero_l/_r, resultant_rational_zero_l/_r: a zero argumen
           '[P] res_recurrence / resultant_redl / resultant_redr (any commutative ring) / resultant_swap / resultant_constl/_constr / resultant_scale: Sylvester-determinant identities proved from the matrix (new: mxpoly.v has none of them)',
           '[P] resultant_linear_convention: resultant (X-a) (X-b) = b-a, fixing that the classical Res(f,g) is MathComp resultant g f',
           '[P] prs_step / resultant_swap_idomain: pseudo-division step of the sub-resultant PRS at determinant level; symmetry over integral domains',
-          '[C] resultant_flag_no_panic_partial: canonical inputs, exactness flag true => the integer routine returned a value (no division by zero, no debug assertion, no underflow)',
-          '[C] resultant_int_partial: canonical non-zero inputs, exactness flag true, value v returned => v = det(Sylvester_mx (Poly g) (Poly f)) (Cohen bookkeeping invariant proved in ResInt.v)',
-          '[C] resultant_rational_agrees_partial: on integer inputs resultant_rational returns the same value as resultant whenever the integer run has flag true']
-NOT_PROVED = ['exactness flag always true (sub-resultant structure theorem: the divisions by a*b^delta and b^delta and the final g^n / b^(n-1) are exact): observed true on every explored input (count in the last tag); with it resultant_int_partial + resultant_flag_no_panic_partial would give resultant f g = det(Sylvester) unconditionally. Until then the equality is checked by the Bareiss oracle on every case',
-              'scaling law on the outputs of the integer routine: consequence of resultant_scale under the flag; metamorphic oracle']
+          '[P] SR_step (SubresDet.v): polynomial subresultants S_j defined as determinants over {poly R}; one division step a A = T B + C maps a^m S_j(A,B) to +- lc(B)^k S_j(B,C), any commutative ring',
+          '[P] resultant_flag_true (sub-resultant structure theorem, SubresInv.v/SubresFlag.v): for all canonical inputs (lengths fit a usize), either mode, every truncating division of resultant_smart (by a*b^delta, by b^delta, and the final g^n / b^(n-1)) has remainder zero: the exactness flag is always true',
+          '[P] resultant_total: hence resultant never panics on canonical inputs (no division by zero, no failed debug assertion, no usize underflow), either mode',
+          '[P] resultant_int_spec: for all canonical non-zero inputs resultant f g = det(Sylvester_mx (Poly g) (Poly f)) (no flag hypothesis; from resultant_int_partial + resultant_flag_true)',
+          '[P] resultant_rational_agrees: on canonical non-zero integer inputs resultant_rational returns the same value as resultant, unconditionally',
+          '[P] resultant_scale_model: scaling law on the outputs of the integer routine: for canonical non-zero f, g and s, t <> 0, resultant (s f) (t g) = s^deg g * t^deg f * resultant f g',
+          '[C] resultant_flag_no_panic_partial, resultant_int_partial, resultant_rational_agrees_partial: the first-wave conditional forms (kept; now subsumed)']
+NOT_PROVED = ['scaling law for the rational routine resultant_rational on inputs with denominators as a statement about two runs (it follows from resultant_rational_spec + resultant_scale, both proved; not stated separately): metamorphic oracle']
 PROFILES = ('debug', 'release')
 
 TIMEOUT = 3600          # per service process; the extracted model computes with Coq's binary integers (slow on 64-bit coefficients)
 
 CLAIM = dict(
-    technique='Coq proofs: (1) MathComp-level Sylvester-matrix recurrences (new) and the Euclid recursion = determinant; (2) refinement of the Gallina model of resultant_rational to it (resultant_rational_spec, all inputs); (3) integer sub-resultant routine: special cases, termination, and - conditional on the exactness flag computed by the model - no panic and value = determinant (resultant_int_partial); + extracted-model-vs-implementation correspondence + Bareiss Sylvester-determinant oracle on every case',
-    text='resultant_rational = det(Sylvester) is proved for all canonical non-zero inputs (zero inputs give 0), in both build modes. For the integer routine: zero/constant special cases and fuel sufficiency for all inputs; whenever the exactness flag of the run is true: no panic and value = det(Sylvester) ([C]). '
-         'That the flag is always true is not proved; the flag was true on every explored input and the determinant is re-checked on every generated case by an independent fraction-free computation.',
-    note='Exactness of the truncating divisions of resultant_smart (sub-resultant structure theorem) is not proved; the model records an exactness flag that was true on every explored input. MathComp lays the Sylvester matrix out low-degree first: the classical Res(f,g) is resultant g f (resultant_linear_convention).',
+    technique='Coq proofs: (1) MathComp-level Sylvester-matrix recurrences (new) and the Euclid recursion = determinant; (2) refinement of the Gallina model of resultant_rational to it (resultant_rational_spec, all inputs); (3) integer sub-resultant routine: special cases, termination, Cohen bookkeeping invariant (value = determinant under the flag), and the sub-resultant structure theorem (polynomial subresultants as determinants over {poly Z}, invariant b^(deg F-j-1) a^(deg G-j) S_j(A0,B0) = +- S_j(F,G)) proving that the exactness flag computed by the model is always true; + extracted-model-vs-implementation correspondence + Bareiss Sylvester-determinant oracle on every case',
+    text='For all canonical non-zero inputs (lengths fit a usize), in both build modes: resultant f g = det(Sylvester) (resultant_int_spec), resultant_rational f g = det(Sylvester) (resultant_rational_spec), the two routines agree on integer inputs, every BigInt division of the integer routine is exact (resultant_flag_true) and neither routine panics (resultant_total, resultant_rational_total); zero inputs give 0. '
+         'The model is tied to the code by the correspondence check; the determinant is additionally re-checked on every generated case by an independent fraction-free computation.',
+    note='MathComp lays the Sylvester matrix out low-degree first: the classical Res(f,g) is resultant g f (resultant_linear_convention). Signs of the subresultants are not tracked in the structure theorem (only exactness needs them up to sign); the sign of the result comes from the first-wave invariant.',
     ref='DESIGN.md section 4, C04')
 
 def o_res(f, g, rational=False):
